@@ -358,6 +358,12 @@ LINE_RULES = [
     (r"^Timestamp does not appear to be ISO 8601$", lambda g: [23]),
     (r"^Number of rows in 'rows' is not equal to 'shape'$", lambda g: [24]),
     (r"^Number of columns in 'columns' is not equal to 'shape'$", lambda g: [25]),
+    (r"^'(rows|columns)' is not a list$", lambda g: [26, 0 if g[0] == 'rows' else 1]),
+    (r"^'data' is not a list$", lambda g: [27]),
+    (r"^Empty ID in (observation|sample)/ids$", lambda g: [115, 0 if g[0] == 'observation' else 1]),
+    (r"^(observation|sample)/matrix/data is not numeric$", lambda g: [109, 0 if g[0] == 'observation' else 1, 5]),
+    (r"^(observation|sample)/matrix/(indices|indptr) is not of an integer type$",
+     lambda g: [109, 0 if g[0] == 'observation' else 1, 6 if g[1] == 'indices' else 7]),
     (r"^Missing attribute: '(.*)'$", lambda g: [101, H_ATTRS.index(g[0])]),
     (r"^Missing required '(.*)' group$", lambda g: [102, H_GROUPS.index(g[0])]),
     (r"^Missing required '(.*)' dataset$", lambda g: [103, H_DATASETS.index(g[0])]),
